@@ -13,8 +13,10 @@ def run(ctx):
         "outside the model: the matrix M of the mapped number operators and their signs are parameters of the theorems, read "
         "from the real mapping objects in the correspondence; the read-back of the really mapped number operators is "
         "checked on every instance",
-        "partial: the round-trip theorems require that inverse() reaches the identity (evaluated by gj_check on every JW/BK "
-        "instance up to n=10/12; completeness of Gauss-Jordan for all invertible matrices is not proved) and n_qubits = n; "
+        "completeness of the elimination (coq/model/GF2Complete.v: gj_complete, inverse_total) is proved for every square matrix "
+        "with trivial kernel, so the round-trip theorems hold for every invertible number-operator matrix; that the JW/BK "
+        "matrices read from the real mapping objects are invertible is still evaluated per instance (gj_check, n up to 10/12)",
+        "partial: the round-trip theorems need n_qubits = n; "
         "SCBK (two dropped qubits, singular padded matrix) round trips and all matrix elements of mapped operators vs Fock "
         "space are decided by the sweep (sweep_C13.py) and the correspondence, not by a theorem",
     ]
